@@ -1578,7 +1578,9 @@ impl<'r, 'a> Th<'r, 'a> {
         let (leaked, faulted): (Vec<(Lid, bool)>, Vec<Lid>) = {
             let g = s.lock();
             let held = g.held_by(tid);
-            let leaked = held.into_iter().filter(|(l, _)| !g.locks[*l].faulted).collect();
+            // (a lock that *another* thread's operation faulted on, and which this thread then
+            // acquired in the ordinary way, is an ordinary hold of this thread: it must be gone too)
+            let leaked = held.into_iter().filter(|(l, _)| !g.locks[*l].faulted || g.locks[*l].fault_by != Some(tid)).collect();
             let faulted = (0..g.locks.len()).filter(|&l| g.locks[l].faulted).collect();
             (leaked, faulted)
         };
